@@ -284,7 +284,16 @@ Manifest decode_manifest(const std::string& uri) {
 
     const auto expires = read_u64(payload, offset);
     offset += 8;
-    manifest.expires_at = std::chrono::system_clock::time_point{std::chrono::seconds{expires}};
+    // The field carries whole seconds; the clock counts a finer unit, so a value outside the
+    // range the time_point can hold must be refused rather than overflow in the conversion.
+    using ClockDuration = std::chrono::system_clock::duration;
+    constexpr auto kMinExpiry = std::chrono::duration_cast<std::chrono::seconds>(ClockDuration::min());
+    constexpr auto kMaxExpiry = std::chrono::duration_cast<std::chrono::seconds>(ClockDuration::max());
+    const std::chrono::seconds expires_seconds{static_cast<std::chrono::seconds::rep>(expires)};
+    if (expires_seconds < kMinExpiry || expires_seconds > kMaxExpiry) {
+        throw std::invalid_argument("manifest expiry out of range");
+    }
+    manifest.expires_at = std::chrono::system_clock::time_point{expires_seconds};
 
     manifest.threshold = payload[offset++];
     manifest.total_shares = payload[offset++];
